@@ -146,6 +146,29 @@ static int p_deleteall(void)    /* D1: hostlist_delete erases every occurrence o
     n = hostlist_count(h);
     return n == 2 ? 1 : n == 4 ? 0 : 2;
 }
+static int p_endpush(void)      /* F16-ENDPUSH: an iterator with nothing left sees the hosts pushed afterwards */
+{
+    hostlist_t h = hostlist_create("a[1-2]");
+    hostlist_iterator_t it;
+    char *x;
+    int ok = 0;
+    if (!h) return 2;
+    it = hostlist_iterator_create(h);
+    hostlist_next(it); hostlist_next(it);
+    if (hostlist_next(it)) return 2;
+    hostlist_push(h, "a3");                             /* joins the last record */
+    x = hostlist_next(it);
+    ok += x && !strcmp(x, "a3");
+    free(hostlist_pop(h));                              /* the host the iterator stands on */
+    hostlist_push(h, "a3");
+    x = hostlist_next(it);
+    ok += x && !strcmp(x, "a3");
+    if (hostlist_next(it)) return 2;
+    hostlist_push(h, "z");                              /* a new record: read through NULL as found */
+    x = hostlist_next(it);
+    ok += x && !strcmp(x, "z");
+    return all_or_none(ok, 3);
+}
 /* run a probe in a child: a crash / hang of the child means "recorded defect" (0) */
 static int probe(int (*f)(void))
 {
@@ -197,5 +220,6 @@ int main(void)
     bad |= lean_bool("FIX_D20_POPITER", probe(p_popiter));
     bad |= lean_bool("FIX_D26_CMPTRUNC", probe(p_cmptrunc));
     bad |= lean_bool("FIX_D1_DELETEALL", probe(p_deleteall));
+    bad |= lean_bool("FIX_F16_ENDPUSH", probe(p_endpush));
     return bad;
 }
